@@ -538,7 +538,7 @@ let str_of_text t = String.concat "," (List.map (fun c -> string_of_int (int_of_
 let not_found_str = "HTTP/1.0 404 Not Found\r\nContent-Type: text/plain\r\n\r\nnot found"
 let not_found_bytes = List.map (fun c -> n_of_int (Char.code c)) (List.init (String.length not_found_str) (String.get not_found_str))
 let cold_outs : int list list ref = ref []
-type netop = NFetch of int | NUnknown of jv * int
+type netop = NFetch of int | NUnknown of jv * int | NListing of int * int * int
 type netcase = { cap : int; base : int; universe : n list array; world : (int * n list * int) list; modes : int list; ops : netop list }
 let take_netcase args =
   let (cap, r) = take1 args in
@@ -555,6 +555,7 @@ let take_netcase args =
   let rec ops n r = if n = 0 then ([], r) else
       let (k, r) = take1 r in
       let (o, r) = (if k = 0 then let (ui, r) = take1 r in (NFetch ui, r)
+                    else if k = 2 || k = 3 then let (ui, r) = take1 r in let (cnt, r) = take1 r in (NListing (k, ui, cnt), r)
                     else let (v, r) = take_jv r in let (si, r) = take1 r in (NUnknown (v, si), r)) in
       let (rest, r) = ops (n - 1) r in (o :: rest, r) in
   let (ops, _) = ops nops r in
@@ -649,6 +650,43 @@ let run_net args lib =
            (match o with
             | ODoc (d, src) -> out := !out @ [0 :: put_jv (JObj d) @ put_text src]
             | OErr _ -> out := !out @ [[1]]))
+      | NListing (kind, ui, cnt) ->
+        (* pub.New(url) -> actor/post -> Children().Harvest(cnt, 0): verdict per entry *)
+        let txt s = List.map (fun c -> n_of_int (Char.code c)) (List.init (String.length s) (String.get s)) in
+        let fu c inp src = let ((r, c'), l) = fetch_unknown w is_https resolve cap parse_ref url_parse host_of c inp src in log := !log @ l; (r, c') in
+        let verdicts =
+          (match fu !cache (JStr nc.universe.(ui)) None with
+           | (FUErr _, c') -> cache := c'; None
+           | (FUOk (o, id), c') ->
+             cache := c';
+             let is_actor = kind_in actor_kinds o and is_post = kind_in post_kinds o in
+             if (kind = 2 && not is_actor) || (kind = 3 && (is_actor || not is_post)) then None else
+             let key = (if kind = 2 then [txt "outbox"] else [txt "replies"; txt "comments"]) in
+             let rec first_present = function
+               | [] -> None
+               | k :: rest -> (match get_any o k with Present v -> Some v | _ -> first_present rest) in
+             (match first_present key with
+              | None -> None
+              | Some cref ->
+                (match fu !cache cref id with
+                 | (FUErr _, c2) -> cache := c2; None
+                 | (FUOk (co, cid), c2) ->
+                   cache := c2;
+                   let ckind = (match get_string co (txt "type") with Present k -> k | _ -> []) in
+                   let ordered = (ckind = txt "OrderedCollection" || ckind = txt "OrderedCollectionPage") in
+                   let plain = (ckind = txt "Collection" || ckind = txt "CollectionPage") in
+                   if not (ordered || plain) then None else
+                   let elems = (match get_list co (txt (if ordered then "orderedItems" else "items")) with Present l -> l | _ -> []) in
+                   let rec firstn k l = if k = 0 then [] else match l with [] -> [] | x :: t -> x :: firstn (k - 1) t in
+                   let es = firstn cnt elems in
+                   Some (List.map (fun e ->
+                       let (v, c3) = (if kind = 2 then timeline_entry w is_https resolve cap parse_ref url_parse host_of !cache id e cid
+                                      else reply_entry w is_https resolve cap parse_ref url_parse host_of !cache id e cid) in
+                       cache := c3; (match v with Genuine -> 1 | ErrorItem -> 0)) es)))) in
+        (match verdicts with
+         | None -> out := !out @ [[1]]
+         | Some vs -> out := !out @ [0 :: 4 :: List.length vs :: List.concat_map (fun v -> [1; v]) vs @ [0]]);
+        cold := !cold @ [[-1]]
       | NUnknown (v, si) ->
         let source = if si < 0 then None else (match info.(si) with Some x -> Some x.canon | None -> None) in
         let ((rs, c'), l) = fetch_unknown w is_https resolve cap parse_ref url_parse host_of !cache v source in
@@ -678,7 +716,7 @@ let orc_net args lib impl =
             let (v, r3) = take_jv r2 in
             (match op with
              | NFetch _ -> let (src, r4) = take_text r3 in proj := !proj @ [0 :: put_jv v @ put_text src]; r := r4
-             | NUnknown _ ->
+             | NListing _ | NUnknown _ ->
                let (has, r4) = take1 r3 in
                if has = 0 then (proj := !proj @ [0 :: put_jv v @ [0]]; r := r4)
                else let (id, r5) = take_text r4 in (proj := !proj @ [0 :: put_jv v @ (1 :: put_text id)]; r := r5))
